@@ -26,12 +26,16 @@ def run(ctx, replay=None):
     kernlib.fixed_programs(ctx, [LATE_WAITER], orphan_finding="F19b", label="late-waiter")
     if ctx.quick:
         kernlib.mc_replay(ctx, "KernelMC_c05.cfg", {"MaxOps = 3": "MaxOps = 4", "MaxEv = 7": "MaxEv = 8"}, label="KernelMC/c05 2x4")
+        # the same event listed twice among the operands (ev & ev, overlapping lists)
+        kernlib.mc_replay(ctx, "KernelMC_c05.cfg", {'"cond", "yield"': '"conddup", "yield"'}, label="KernelMC/c05 2x3 duplicate operands")
         kernlib.gen_validate(ctx, 1500, KINDS)
         kernlib.gen_validate(ctx, 800, dict(KINDS, condnoprobe=4), plan_kinds={"run": 1, "step": 3}, max_plan=6,
                              orphan_finding="F19b", label="generated-unprobed-conditions")
     else:
         kernlib.mc_replay(ctx, "KernelMC_c05.cfg", {"MaxOps = 3": "MaxOps = 4", "MaxEv = 7": "MaxEv = 7", "MaxKids = 2": "MaxKids = 3"},
                           label="KernelMC/c05 2x4 kids3")
+        kernlib.mc_replay(ctx, "KernelMC_c05.cfg", {'"cond", "yield"': '"cond", "conddup", "yield"', "MaxOps = 3": "MaxOps = 4"},
+                          label="KernelMC/c05 2x4 duplicate operands", limit=300000)
         # beyond the exhaustive bound: random deep behaviours of the same specification (TLC -simulate), replayed likewise
         kernlib.mc_replay(ctx, "KernelMC_c05.cfg", {"MaxProc = 2": "MaxProc = 3", "MaxOps = 3": "MaxOps = 5", "MaxEv = 7": "MaxEv = 16", "MaxKids = 2": "MaxKids = 3"},
                           label="KernelMC/c05 simulate 4 procs x 4-5 ops", simulate=4000, depth=400)
